@@ -7,4 +7,11 @@ cd /verif || exit 2
 if [ ! -x /verif/bin/gowp ] || [ -n "$(find /verif/gowp -name '*.go' -newer /verif/bin/gowp 2>/dev/null | head -1)" ]; then
 	./setup.sh >/dev/null 2>&1 || { echo "gowp build failed"; exit 2; }
 fi
-exec /verif/bin/gowp check -prop "$1" -tier "${2:-quick}"
+/verif/bin/gowp check -prop "$1" -tier "${2:-quick}"
+rc=$?
+if [ "${2:-quick}" = thorough ] && [ $rc -eq 0 ]; then
+	# second part of the thorough tier: the must-fail mutants recorded for
+	# this property (sensitivity of the obligations); informational
+	python3 /verif/selftest/sensitivity.py "$1"
+fi
+exit $rc
